@@ -31,6 +31,7 @@ def check(chk):
     _shared(chk, pop)
     _real(chk, pop)
     _feedback(chk, pop)
+    _order(chk, pop)
     chk.floor("SORT", 8)
     chk.floor("COEF", 4)
     chk.floor("REAL", 5)
@@ -139,6 +140,17 @@ def _real(chk, pop):
         idx = {o.name for p in ff.paths(val, spine_only=True) if p.atom.kind == "call" and p.atom.node is call for o in p.ops if o.kind == "unpack"}
         chk.check(idx == {str(i)}, f"REAL.store.{key}", fit, node,
                   why=f"{key!r} must store kernel output #{i}; it stores output(s) {sorted(idx)}")
+
+
+def _order(chk, pop):
+    """FEEDBACK.order - the kernel forms the lag-1 products by position (rows 1: against rows :-1): the series must reach it
+    in the order the caller gave; nothing in POP's own fit path may re-order or select rows along the sample dimension"""
+    from .common import sample_order_kept
+    fit = pop.methods["_fit_algorithm"]
+    ff, call = _kernel_call(chk, fit, "_np_solve_pop_system")
+    chk.require(len(call.args) >= 2, "POP._fit_algorithm: data argument of the POP kernel vanished")
+    sample_order_kept(chk, "FEEDBACK.order", fit, ff, call.args[1], "the series reaches the lag-1 kernel in the caller's order",
+                      "the lag-1 products are formed: row t is no longer followed by the caller's row t+1, the feedback matrix is that of another series")
 
 
 def _feedback(chk, pop):
